@@ -29,7 +29,9 @@ CHECKS = {
              "declared lengths, 9/10/11-byte varints, fixed-width truncations) x every offset x both modes x every decoder method; TLC proves the implementation model never "
              "panics, stays in bounds and succeeds only with the reference item; the real code is compared with both the requirement spec (verdict) and the implementation "
              "model (drift) on the same domain, and on seeded random call sequences over mutated long inputs.",
-        note="trusted: TLC, runtime.ReadMemStats for the allocation bound (64*len+4096 bytes per call), poisoned spare capacity to expose reads beyond len",
+        note="trusted: TLC, runtime.ReadMemStats for the allocation bound (64*len+4096 bytes per call; an excess is re-measured three times and the smallest reading kept), "
+             "poisoned spare capacity to expose reads beyond len; a fatal runtime error (out of memory) in a decoder call is attributed through an intent file and reproduced "
+             "twice in a child process before TLC is given 'crash' as that call's outcome",
         ref="7 (C03), Appendix A"),
     "C19": dict(
         technique="TLA+ spec (Encoder!ExplainsEncNested, Decoder Nested/NestedMsg) + TLC model checking (MCDecoder incl. nested stub calls) + TLC trace validation of recorded EncodeNested/DecodeNested events",
@@ -74,7 +76,9 @@ GEN_NOTE = ("trusted: TLC; the harness walkers (protoreflect for google-v2 types
 CHECKS.update({
     "C04": dict(
         technique="TLA+ spec (Message: ParseMsg/EncMsg/RequiredOK over schema-as-data) + TLC model checking (MCMessage) + TLC trace validation of recorded Size/Marshal/MarshalTo events of freshly generated code",
-        text="the plug-in rebuilt from /repo generates code for the corpus; for every type every field alone at each boundary value (lists of 1/2/3/31/32/33, empty nested "
+        text="(plus: values of every proto2 extension kind - declared in two message scopes and at file level - through Size/Marshal/MarshalTo, judged by TraceDispatch!ExtRtOK; "
+             "messages carrying unknown fields at the top level and in nested messages; field numbers at every key-size boundary.) "
+             "the plug-in rebuilt from /repo generates code for the corpus; for every type every field alone at each boundary value (lists of 1/2/3/31/32/33, empty nested "
              "messages, map and oneof shapes) and seeded random combinations are marshaled; TLC requires no panic, len(Marshal) = Size, MarshalTo into make([]byte, Size) "
              "writing exactly Size bytes (poisoned spare capacity) with the same content. MCMessage validates the specification itself (round trip, concatenation = merge law).",
         note=GEN_NOTE, ref="7 (C04), Appendix B"),
